@@ -10,7 +10,7 @@ def _c10_project(op, line):
     return line
 
 PROPS["C10"] = {
-    "families": {"codec": {"quick": 1500, "thorough": 60000}},
+    "families": {"codec": {"quick": 6000, "thorough": 120000}},
     "relevant": _c10_relevant,
     "project": _c10_project,
     "mon_clauses": ["once_each", "first3", "sections", "checksum_last", "bodylength", "checksum", "copy_identical", "reparse_ok",
